@@ -50,8 +50,13 @@ def extract_functions(header):
                     p = p.strip()
                     mm = re.match(r"(.*?)\s*\*?\s*([A-Za-z_]\w*)$", p)
                     params.append((mm.group(1), mm.group(2)))
-            out.append({"name": m.group("name"), "ret": m.group("ret").strip(), "params": params,
-                        "lines": body})
+            # the wrapper that assembles a grouped value from its members' evaluation functions
+            # (`T evalX(T a) { a.setM(this->evalXM()); ...; return a; }`) has no blocks of its own
+            is_gadget_wrapper = len(params) == 1 and params[0][1] == "a" and params[0][0] == m.group("ret").strip() and \
+                not any(re.match(r"\s*b\d+:", l) for l in body)
+            if not is_gadget_wrapper:
+                out.append({"name": m.group("name"), "ret": m.group("ret").strip(), "params": params,
+                            "lines": body})
             i = j + 1
         else:
             i += 1
